@@ -75,8 +75,8 @@ def run(ctx):
         h = {"kind": "delay", "seed": ctx.seed * 100 + seed}
         fcases += [{"id": "scan%d" % seed, "sql": "SELECT t.id AS id FROM %s t WHERE t.s LIKE 'Row1%%' OR t.s ~ 'w[0-9]$' OR t.s ~* 'ROW3'" % big, "hook": h},
                    {"id": "join%d" % seed, "sql": "SELECT a.id AS id FROM %s a JOIN %s b ON a.k = b.k WHERE a.s ~* 'row1'" % (paths[200], paths[1000]), "hook": h},
-                   {"id": "join2sides%d" % seed, "sql": "SELECT a.id AS id FROM %s a JOIN %s b ON a.k = b.k WHERE a.s ~ 'Row1$' AND b.s ~ '^Row[0-9]$' AND a.s LIKE 'Row%%' AND b.s ~* 'ROW'" % (paths[1000], paths[1000]), "hook": h},
-                   {"id": "join3%d" % seed, "sql": "SELECT a.id AS id FROM (SELECT x.id AS id, x.k AS k FROM %s x WHERE x.s ~ 'w1[0-2]?$') a JOIN (SELECT y.id AS id, y.k AS k FROM %s y WHERE y.s ~ 'w[3-5]$') b ON a.k = b.k" % (paths[1000], big), "hook": h},
+                   {"id": "join2sides%d" % seed, "sql": "SELECT a.id AS id FROM %s a JOIN %s b ON a.k = b.k WHERE a.s ~ 'Row1$' AND b.s ~ '^Row[0-9]$' AND a.s LIKE 'Row%%' AND b.s LIKE '_ow%%' AND b.s ~* 'ROW'" % (paths[1000], paths[1000]), "hook": h},
+                   {"id": "join3%d" % seed, "sql": "SELECT a.id AS id FROM (SELECT x.id AS id, x.k AS k FROM %s x WHERE x.s ~ 'w1[0-2]?$' AND x.s LIKE 'Row1%%') a JOIN (SELECT y.id AS id, y.k AS k FROM %s y WHERE y.s ~ 'w[3-5]$' AND y.s LIKE '%%w_') b ON a.k = b.k" % (paths[1000], big), "hook": h},
                    {"id": "limitjoin%d" % seed, "sql": "SELECT a.id AS id FROM %s a JOIN %s b ON a.k = b.k LIMIT 5" % (paths[1000], paths[1000]), "hook": h},
                    {"id": "limit%d" % seed, "sql": "SELECT t.id AS id FROM %s t LIMIT 70" % big, "hook": h},
                    {"id": "fail%d" % seed, "sql": "SELECT t.id AS id FROM %s t JOIN %s u ON t.id = u.id" % (bad, paths[200]), "hook": h},
